@@ -208,45 +208,46 @@ structure Wall where
   nextto : Option Str
   deriving Repr
 
+/-- `LOCATION`: TOP, BOTTOM, or the vertex name after `SPACE-` -/
+def wallLocation (a : Attrs) : Except String (Option Str) :=
+  match getStr a "LOCATION" with
+  | none => .ok none
+  | some loc =>
+    if loc == "TOP".toList || loc == "BOTTOM".toList then .ok (some loc)
+    else if startsWith "SPACE-".toList loc then .ok (some (loc.drop 6))
+    else .error "localización desconocida"
+
+/-- boundary type from the block type (and INT-WALL-TYPE for interior walls) -/
+def wallBounds (b : Block) : Except String String :=
+  if b.btype == "INTERIOR-WALL".toList then
+    match reqStr b.attrs "INT-WALL-TYPE" with
+    | .error e => .error e
+    | .ok t => if t == "STANDARD".toList then .ok "INTERIOR" else if t == "ADIABATIC".toList then .ok "ADIABATIC" else .error "subtipo desconocido"
+  else if b.btype == "UNDERGROUND-WALL".toList then .ok "GROUND"
+  else if b.btype == "EXTERIOR-WALL".toList || b.btype == "ROOF".toList then .ok "EXTERIOR"
+  else .error "tipo desconocido"
+
+/-- written TILT, or the default of the element kind -/
+def wallTilt (b : Block) (location : Option Str) : TNum :=
+  match getNum b.attrs "TILT" with
+  | some t => t
+  | none =>
+    if b.btype == "ROOF".toList || location == some "TOP".toList then some 0
+    else if location == some "BOTTOM".toList then some 180
+    else some 90
+
 def wallOf (b : Block) : Except String Wall :=
   let a := b.attrs
-  match b.parent with
-  | none => .error "Cerramiento sin espacio asociado"
-  | some space =>
-    match reqStr a "CONSTRUCTION" with
-    | .error e => .error e
-    | .ok cons =>
-      let locRes : Except String (Option Str) := match getStr a "LOCATION" with
-        | none => .ok none
-        | some loc =>
-          if loc == "TOP".toList || loc == "BOTTOM".toList then .ok (some loc)
-          else if startsWith "SPACE-".toList loc then .ok (some (loc.drop 6))
-          else .error "localización desconocida"
-      match locRes with
-      | .error e => .error e
-      | .ok location =>
-        let boundsRes : Except String String :=
-          if b.btype == "INTERIOR-WALL".toList then
-            match reqStr a "INT-WALL-TYPE" with
-            | .error e => .error e
-            | .ok t => if t == "STANDARD".toList then .ok "INTERIOR" else if t == "ADIABATIC".toList then .ok "ADIABATIC" else .error "subtipo desconocido"
-          else if b.btype == "UNDERGROUND-WALL".toList then .ok "GROUND"
-          else if b.btype == "EXTERIOR-WALL".toList || b.btype == "ROOF".toList then .ok "EXTERIOR"
-          else .error "tipo desconocido"
-        match boundsRes with
-        | .error e => .error e
-        | .ok bounds =>
-          let tilt : TNum := match getNum a "TILT" with
-            | some t => t
-            | none =>
-              if b.btype == "ROOF".toList || location == some "TOP".toList then some 0
-              else if location == some "BOTTOM".toList then some 180
-              else some 90
-          let hasPoly := (getStr a "POLYGON").isSome
-          let az : TNum := if location == some "BOTTOM".toList then some 180 else numOr a "AZIMUTH" 0
-          let nextto := if bounds == "INTERIOR" then getStr a "NEXT-TO" else none
-          .ok { name := b.name, space := space, cons := cons, location := location, x := numOr a "X" 0, y := numOr a "Y" 0, z := numOr a "Z" 0,
-                angle := some az, tilt := tilt, hasPolygon := hasPoly, bounds := bounds, nextto := nextto }
+  match b.parent, reqStr a "CONSTRUCTION", wallLocation a, wallBounds b with
+  | none, _, _, _ => .error "Cerramiento sin espacio asociado"
+  | some _, .error e, _, _ => .error e
+  | some _, .ok _, .error e, _ => .error e
+  | some _, .ok _, .ok _, .error e => .error e
+  | some space, .ok cons, .ok location, .ok bounds =>
+    .ok { name := b.name, space := space, cons := cons, location := location, x := numOr a "X" 0, y := numOr a "Y" 0, z := numOr a "Z" 0,
+          angle := some (if location == some "BOTTOM".toList then some 180 else numOr a "AZIMUTH" 0),
+          tilt := wallTilt b location, hasPolygon := (getStr a "POLYGON").isSome, bounds := bounds,
+          nextto := if bounds == "INTERIOR" then getStr a "NEXT-TO" else none }
 
 structure Window where
   name : Str
